@@ -50,6 +50,9 @@ pub struct Tokinizer<'a> {
     pub language: String,
     pub token_infos: Vec<Rc<TokenInfo>>,
     pub tokens: Vec<Rc<TokenType>>,
+
+    /// Internal calculation codes are written with '.' as decimal separator and without thousand separator
+    pub use_default_separators: bool,
 }
 
 #[derive(Debug)]
@@ -88,7 +91,8 @@ impl<'a> Tokinizer<'a> {
             session,
             language: session.get_language(),
             token_infos: Vec::new(),
-            tokens: Vec::new()
+            tokens: Vec::new(),
+            use_default_separators: false
         }
     }
 
@@ -105,7 +109,8 @@ impl<'a> Tokinizer<'a> {
             session,
             language: session.get_language(),
             token_infos: Vec::new(),
-            tokens: Vec::new()
+            tokens: Vec::new(),
+            use_default_separators: false
         };
 
         language_tokinizer(&mut tokinizer);
@@ -140,6 +145,8 @@ impl<'a> Tokinizer<'a> {
     }
 
     pub fn basic_tokinize(&mut self) -> bool {
+        /* The calculation codes do not depend on the separators of the user */
+        self.use_default_separators = true;
         regex_tokinizer(self);
         log::debug!(" > regex_tokinizer");
         alias_tokinizer(self);
